@@ -4,10 +4,10 @@ package props
 // ExampleClaims: embed a base claims type and use the embedding-aware codec.
 
 import (
-	"strings"
 	"bytes"
 	"encoding/json"
 	"fmt"
+	"strings"
 
 	cbor "github.com/fxamacker/cbor/v2"
 	"github.com/veraison/eat"
@@ -521,8 +521,10 @@ func (o ExtDefaultingClaims) MarshalCBOR() ([]byte, error) {
 func (o *ExtDefaultingClaims) UnmarshalCBOR(d []byte) error {
 	return encoding.PopulateStructFromCBOR(extDM, d, o)
 }
-func (o ExtDefaultingClaims) MarshalJSON() ([]byte, error)  { return encoding.SerializeStructToJSON(&o) }
-func (o *ExtDefaultingClaims) UnmarshalJSON(d []byte) error { return encoding.PopulateStructFromJSON(d, o) }
+func (o ExtDefaultingClaims) MarshalJSON() ([]byte, error) { return encoding.SerializeStructToJSON(&o) }
+func (o *ExtDefaultingClaims) UnmarshalJSON(d []byte) error {
+	return encoding.PopulateStructFromJSON(d, o)
+}
 
 type ExtDefaultingProfile struct{}
 
@@ -599,8 +601,10 @@ func (o ExtOddFieldsClaims) MarshalCBOR() ([]byte, error) {
 func (o *ExtOddFieldsClaims) UnmarshalCBOR(d []byte) error {
 	return encoding.PopulateStructFromCBOR(extDM, d, o)
 }
-func (o ExtOddFieldsClaims) MarshalJSON() ([]byte, error)  { return encoding.SerializeStructToJSON(&o) }
-func (o *ExtOddFieldsClaims) UnmarshalJSON(d []byte) error { return encoding.PopulateStructFromJSON(d, o) }
+func (o ExtOddFieldsClaims) MarshalJSON() ([]byte, error) { return encoding.SerializeStructToJSON(&o) }
+func (o *ExtOddFieldsClaims) UnmarshalJSON(d []byte) error {
+	return encoding.PopulateStructFromJSON(d, o)
+}
 
 // Describe renders the profile's own claims (nil and empty list are different things).
 func (o *ExtOddFieldsClaims) Describe() string {
@@ -650,8 +654,10 @@ func (o ExtP1With265Claims) MarshalCBOR() ([]byte, error) {
 func (o *ExtP1With265Claims) UnmarshalCBOR(d []byte) error {
 	return encoding.PopulateStructFromCBOR(extDM, d, o)
 }
-func (o ExtP1With265Claims) MarshalJSON() ([]byte, error)  { return encoding.SerializeStructToJSON(&o) }
-func (o *ExtP1With265Claims) UnmarshalJSON(d []byte) error { return encoding.PopulateStructFromJSON(d, o) }
+func (o ExtP1With265Claims) MarshalJSON() ([]byte, error) { return encoding.SerializeStructToJSON(&o) }
+func (o *ExtP1With265Claims) UnmarshalJSON(d []byte) error {
+	return encoding.PopulateStructFromJSON(d, o)
+}
 
 type ExtP1With265Profile struct{}
 
@@ -678,8 +684,10 @@ func (o ExtTwoLevelClaims) MarshalCBOR() ([]byte, error) {
 func (o *ExtTwoLevelClaims) UnmarshalCBOR(d []byte) error {
 	return encoding.PopulateStructFromCBOR(extDM, d, o)
 }
-func (o ExtTwoLevelClaims) MarshalJSON() ([]byte, error)  { return encoding.SerializeStructToJSON(&o) }
-func (o *ExtTwoLevelClaims) UnmarshalJSON(d []byte) error { return encoding.PopulateStructFromJSON(d, o) }
+func (o ExtTwoLevelClaims) MarshalJSON() ([]byte, error) { return encoding.SerializeStructToJSON(&o) }
+func (o *ExtTwoLevelClaims) UnmarshalJSON(d []byte) error {
+	return encoding.PopulateStructFromJSON(d, o)
+}
 
 // ExtTwoEmbedsClaims embeds two structs at the same level (the base claims and a block of vendor claims).
 type VendorBlock struct {
@@ -704,8 +712,10 @@ func (o ExtTwoEmbedsClaims) MarshalCBOR() ([]byte, error) {
 func (o *ExtTwoEmbedsClaims) UnmarshalCBOR(d []byte) error {
 	return encoding.PopulateStructFromCBOR(extDM, d, o)
 }
-func (o ExtTwoEmbedsClaims) MarshalJSON() ([]byte, error)  { return encoding.SerializeStructToJSON(&o) }
-func (o *ExtTwoEmbedsClaims) UnmarshalJSON(d []byte) error { return encoding.PopulateStructFromJSON(d, o) }
+func (o ExtTwoEmbedsClaims) MarshalJSON() ([]byte, error) { return encoding.SerializeStructToJSON(&o) }
+func (o *ExtTwoEmbedsClaims) UnmarshalJSON(d []byte) error {
+	return encoding.PopulateStructFromJSON(d, o)
+}
 
 type ExtTwoEmbedsProfile struct{}
 
@@ -743,4 +753,23 @@ func (ExtRawProfile) GetClaims() psatoken.IClaims {
 		panic(err)
 	}
 	return &ExtRawClaims{P2Claims: psatoken.P2Claims{Profile: &ep, SwComponents: &psatoken.SwComponents[*psatoken.SwComponent]{}, CanonicalProfile: ExtRawName}}
+}
+
+// ---- claims types WITHOUT encoding methods of their own (C10): the library's encoder sees the plain struct ----
+
+// PlainValEmbedClaims embeds the profile-2 claims by value, PlainPtrEmbedClaims by pointer, PlainTwoPtrClaims through
+// two pointer embeddings; none has MarshalCBOR: the CBOR encoder flattens embedded structs and pointers to them alike.
+type PlainValEmbedClaims struct {
+	psatoken.P2Claims
+	Extra *int64 `cbor:"-75100,keyasint,omitempty" json:"extra,omitempty"`
+}
+
+type PlainPtrEmbedClaims struct {
+	*psatoken.P2Claims
+	Extra *int64 `cbor:"-75100,keyasint,omitempty" json:"extra,omitempty"`
+}
+
+type PlainTwoPtrClaims struct {
+	*PlainPtrEmbedClaims
+	Vendor *string `cbor:"-75400,keyasint,omitempty" json:"vendor,omitempty"`
 }
